@@ -30,6 +30,19 @@
 (*    only compares - the project itself is never written on that path     *)
 (*    (the step is "not applied", whether the comparison raises or not).   *)
 (*                                                                         *)
+(* Round 4: the project is also touched by the WORLD between two          *)
+(* generator steps.  Environment steps (at most MaxEnv per history):       *)
+(* Corrupt(kind) - the registry file gets merge-conflict markers / is      *)
+(* emptied / truncated / gets a BOM (all: "unreadable"), becomes a JSON    *)
+(* list, is deleted; exception_aliases.py is deleted or emptied - and      *)
+(* Interrupted(c, codes, at) - a forced generation of c that dies right    *)
+(* after open(registry, "w") or open(exception_aliases.py, "w").  As the   *)
+(* code does it: json.load of an unreadable registry raises (the step      *)
+(* FAILS visibly, after the force path already removed and re-created the  *)
+(* client's package directory), `registry[client] = ...` on a list raises, *)
+(* a missing registry is "no registry yet" (rebuilt from this client       *)
+(* alone).  The property stays about generator steps (KeepsWorkingStep).   *)
+(*                                                                         *)
 (* A layout says where the packages live: `pkg[c]` is the path of client  *)
 (* c's package, `core` the path of the one core package all clients are    *)
 (* told to use (<<>> = no core_package argument: every client gets its     *)
@@ -45,7 +58,9 @@ CONSTANTS
   Clients,    \* set of client identities (strings)
   CodeSets,   \* the sets of declared error statuses a generated spec may have (a set of sets of ints)
   Layouts,    \* set of layouts [id, depth, core : path, pkg : Clients -> path]
-  MaxLen      \* histories have at most MaxLen generate calls
+  MaxLen,     \* histories have at most MaxLen generate calls
+  MaxEnv,     \* ... and at most MaxEnv environment steps
+  EnvKinds    \* the environment step kinds explored (subset of CorruptKinds \cup {"int-registry", "int-aliases"})
 
 VARIABLES
   layout,     \* the layout of this project (fixed along a behaviour)
@@ -54,9 +69,15 @@ VARIABLES
   needs,      \* Client -> SUBSET Codes: the alias classes the client's endpoint modules import
   generated,  \* clients whose package exists in the project
   priv,       \* embedded layout only: Client -> codes with a class in the client's private core
-  n           \* number of generate calls so far
+  n,          \* number of generate calls so far
+  regstate,   \* the registry file: "absent" | "file" (readable JSON object) | "unreadable" | "list"
+  nenv,       \* number of environment steps so far
+  envkind     \* kind of the last environment step ("none" before the first)
 
-vars == <<layout, registry, aliases, needs, generated, priv, n>>
+vars == <<layout, registry, aliases, needs, generated, priv, n, regstate, nenv, envkind>>
+
+RegistryUnreadable == {"conflict", "empty", "truncated", "bom"}
+CorruptKinds == RegistryUnreadable \cup {"list", "reg-deleted", "aliases-deleted", "aliases-emptied"}
 
 Codes == UNION CodeSets
 Range(f) == {f[x] : x \in DOMAIN f}
@@ -84,28 +105,70 @@ Init ==
   /\ generated = {}
   /\ priv = [c \in Clients |-> {}]
   /\ n = 0
+  /\ regstate = "absent"
+  /\ nenv = 0
+  /\ envkind = "none"
+
+\* _update_registry: `if os.path.exists(p): registry = json.load(open(p))` then `registry[client] = sorted(codes)`
+RegistryLoads == regstate \in {"absent", "file"}
+Merged(c, codes) == [x \in DOMAIN registry \cup {c} |-> IF x = c THEN codes ELSE registry[x]]
 
 Generate(c, codes, force, lid) ==
   /\ lid = layout.id
   /\ n < MaxLen
   /\ n' = n + 1
-  /\ UNCHANGED layout
+  /\ UNCHANGED <<layout, nenv, envkind>>
   /\ IF ~Applied(c, force)
-     THEN UNCHANGED <<registry, aliases, needs, generated, priv>>
+     THEN UNCHANGED <<registry, aliases, needs, generated, priv, regstate>>
      ELSE /\ generated' = generated \cup {c}
-          /\ needs' = [needs EXCEPT ![c] = codes]
           /\ IF Embedded
-             THEN /\ priv' = [priv EXCEPT ![c] = codes]      \* private core: rewritten from this client's spec only
-                  /\ UNCHANGED <<registry, aliases>>
+             THEN /\ needs' = [needs EXCEPT ![c] = codes]
+                  /\ priv' = [priv EXCEPT ![c] = codes]      \* private core: rewritten from this client's spec only
+                  /\ UNCHANGED <<registry, aliases, regstate>>
              ELSE /\ UNCHANGED priv
                   /\ IF SharedDetected(c)
-                     THEN LET r == [x \in DOMAIN registry \cup {c} |-> IF x = c THEN codes ELSE registry[x]] IN
-                            /\ registry' = r
-                            /\ aliases' = UNION Range(r)
-                     ELSE /\ UNCHANGED registry
+                     THEN IF RegistryLoads
+                          THEN /\ needs' = [needs EXCEPT ![c] = codes]
+                               /\ registry' = Merged(c, codes)
+                               /\ regstate' = "file"
+                               /\ aliases' = UNION Range(Merged(c, codes))
+                          ELSE \* the step FAILS visibly (JSONDecodeError / TypeError) before exception_aliases.py is
+                               \* touched; the client's package directory was already removed and re-created empty
+                               /\ needs' = [needs EXCEPT ![c] = {}]
+                               /\ UNCHANGED <<registry, regstate, aliases>>
+                     ELSE /\ needs' = [needs EXCEPT ![c] = codes]
+                          /\ UNCHANGED <<registry, regstate>>
                           /\ aliases' = codes               \* exception_aliases.py rewritten from THIS spec only
 
-Next == \E c \in Clients, codes \in CodeSets, force \in BOOLEAN, l \in Layouts : Generate(c, codes, force, l.id)
+\* ---- environment steps
+Corrupt(kind) ==
+  /\ ~Embedded /\ nenv < MaxEnv /\ kind \in EnvKinds
+  /\ nenv' = nenv + 1 /\ envkind' = kind
+  /\ UNCHANGED <<layout, needs, generated, priv, n>>
+  /\ IF kind \in {"aliases-deleted", "aliases-emptied"}
+     THEN /\ generated # {}                     \* the file exists
+          /\ aliases' = {}
+          /\ UNCHANGED <<registry, regstate>>
+     ELSE /\ regstate = "file"
+          /\ registry' = NoRegistry
+          /\ regstate' = IF kind \in RegistryUnreadable THEN "unreadable" ELSE IF kind = "list" THEN "list" ELSE "absent"
+          /\ UNCHANGED aliases
+
+\* a forced generation of c killed right after open(<registry>, "w") / open(<exception_aliases.py>, "w")
+Interrupted(c, codes, at) ==
+  /\ ~Embedded /\ nenv < MaxEnv /\ at \in EnvKinds /\ SharedDetected(c) /\ RegistryLoads
+  /\ nenv' = nenv + 1 /\ envkind' = at
+  /\ UNCHANGED <<layout, priv, n>>
+  /\ generated' = generated \cup {c}
+  /\ needs' = [needs EXCEPT ![c] = {}]            \* its package was removed and re-created empty
+  /\ IF at = "int-registry"
+     THEN registry' = NoRegistry /\ regstate' = "unreadable" /\ UNCHANGED aliases   \* 0-byte registry
+     ELSE registry' = Merged(c, codes) /\ regstate' = "file" /\ aliases' = {}       \* 0-byte exception_aliases.py
+
+GenNext == \E c \in Clients, codes \in CodeSets, force \in BOOLEAN, l \in Layouts : Generate(c, codes, force, l.id)
+EnvNext == \/ \E k \in CorruptKinds : Corrupt(k)
+           \/ \E c \in Clients, codes \in CodeSets, at \in {"int-registry", "int-aliases"} : Interrupted(c, codes, at)
+Next == GenNext \/ EnvNext
 
 Spec == Init /\ [][Next]_vars
 
@@ -119,6 +182,9 @@ TypeOK ==
   /\ priv \in [Clients -> SUBSET Codes]
   /\ generated \subseteq Clients
   /\ n \in 0..MaxLen
+  /\ regstate \in {"absent", "file", "unreadable", "list"}
+  /\ nenv \in 0..MaxEnv
+  /\ regstate # "file" => registry = NoRegistry
 
 \* the layouts of this model: all clients are told to use the same core, and it is outside every client package
 \* (or every client has its own embedded core)
@@ -127,18 +193,25 @@ LayoutOK == Embedded \/ \A c \in Clients : ~Inside(layout.core, layout.pkg[c])
 \* the alias classes a client can import from the core package it uses
 Visible(c) == IF Embedded THEN priv[c] ELSE aliases
 
-(* C11: every client generated so far still finds every alias class it imports. *)
-Served == \A c \in generated : needs[c] \subseteq Visible(c)
+(* C11: every client generated so far still finds every alias class it imports (as long as the world kept its hands off). *)
+ServedC(c) == needs[c] \subseteq Visible(c)
+Served == nenv = 0 => \A c \in generated : ServedC(c)
 
 (* C11 as a step property: a generation never removes an alias that a client whose code did not change uses. *)
 NeverShrinksNeededStep ==
   \A c \in generated : needs'[c] = needs[c] => (needs[c] \cap Visible(c)) \subseteq Visible(c)'
-NeverShrinksNeeded == [][NeverShrinksNeededStep]_vars
+IsGenStep == n' = n + 1
+NeverShrinksNeeded == [][(IsGenStep /\ nenv' = 0) => NeverShrinksNeededStep]_vars
 
-(* the mechanism: whenever the core is shared the registry knows every generated client with all its codes *)
+(* ... and the same for the generator steps that follow an environment step: whether the step succeeds or fails *)
+(* visibly, every client that worked before it (and was not the one being generated) still works after it.      *)
+KeepsWorkingStep == \A c \in generated : (needs'[c] = needs[c] /\ ServedC(c)) => ServedC(c)'
+KeepsWorking == [][IsGenStep => KeepsWorkingStep]_vars
+
+(* the mechanism (without interference): whenever the core is shared the registry knows every generated client *)
 RegistryKeepsClients ==
-  ~Embedded => \A c \in generated : SharedDetected(c) => (c \in DOMAIN registry /\ needs[c] \subseteq registry[c])
+  (~Embedded /\ nenv = 0) => \A c \in generated : SharedDetected(c) => (c \in DOMAIN registry /\ needs[c] \subseteq registry[c])
 
 (* with a registry the aliases are exactly the union over the registered clients *)
-AliasesAreUnion == (~Embedded /\ \A c \in Clients : SharedDetected(c)) => aliases = UNION Range(registry)
+AliasesAreUnion == (~Embedded /\ nenv = 0 /\ \A c \in Clients : SharedDetected(c)) => aliases = UNION Range(registry)
 =============================================================================
